@@ -39,7 +39,7 @@ class Term(object):
         return hash(self.key())
 
     def __repr__(self):
-        return "%s(%s)" % (self.fn, ",".join(repr(a)[:40] for a in self.args))
+        return "%s(..%d)" % (self.fn, len(self.args))
 
 
 def valkey(r):
@@ -334,6 +334,11 @@ class SymSeq(Sym):
         if len(a) != len(b) or any(isinstance(x, Piece) != isinstance(y, Piece) for x, y in zip(a, b)):
             # shapes differ: make them canonical by deciding (forking on) emptiness of every abstract piece
             a, b = self._nonempty_norm(), o._nonempty_norm()
+            if len(a) != len(b) and any(isinstance(x, Piece) and isinstance(x.base, Term) for x in a + b):
+                la, lb = self.length(), o.length()
+                if not (isinstance(la, int) and isinstance(lb, int)):
+                    if bool(la != lb):
+                        return False
         # allow a Piece of provably positive length vs elements only when shapes agree
         if len(a) != len(b):
             la, lb = self.length(), o.length()
@@ -350,6 +355,9 @@ class SymSeq(Sym):
                 conds += [toint(x.value) == toint(y.value), x.ln == y.ln]
             elif isinstance(x, Piece):
                 if x.base != y.base:
+                    if isinstance(x.base, Term) or isinstance(y.base, Term):
+                        # outputs of different uninterpreted applications: different values (ideal-primitive assumption)
+                        return False
                     return _positional_eq(self, o)
                 conds += [x.off == y.off, x.ln == y.ln]
             else:
@@ -420,16 +428,107 @@ class SymSeq(Sym):
         return "SymSeq%s(%r)" % ("b" if self.kind == "bytes" else "", self.items)
 
 
+def _terms_of(items):
+    out = set()
+    for it in items:
+        if isinstance(it, Piece) and isinstance(it.base, Term):
+            out.add(it.base.key())
+        elif isinstance(it, SymInt):
+            for n in core.free_vars(it.t):
+                if n.startswith("arr!("):
+                    out.add(n)
+    return out
+
+
 def _positional_eq(a, b):
-    """fallback equality when the normal forms have different shapes: only decidable when both are
-    of concrete length and without abstract pieces"""
+    """equality of two ropes whose normal forms have different shapes: align both at each other's piece boundaries
+    (forking on the length comparisons) and compare segment by segment"""
     la, lb = a.length(), b.length()
     if isinstance(la, int) and isinstance(lb, int):
         if la != lb:
             return False
-        if not any(isinstance(i, Piece) for i in a.items + b.items):
-            return S(z3.And([toint(x) == toint(y) for x, y in zip(a.items, b.items)])) if la else True
-    raise Unsupported("rope equality between different shapes: %r vs %r" % (a.norm(), b.norm()))
+    elif bool(la != lb):
+        return False
+    # ideal-primitive shortcut: the output of an uninterpreted application that occurs on one side only is a value
+    # independent of everything on the other side
+    ta = set(it.base.key() for it in a.items if isinstance(it, Piece) and isinstance(it.base, Term))
+    tb = set(it.base.key() for it in b.items if isinstance(it, Piece) and isinstance(it.base, Term))
+    if (ta - tb) or (tb - ta):
+        only = (ta - tb) | (tb - ta)
+        other_syms = _terms_of(a.items) | _terms_of(b.items)
+        if not any(("arr!%s" % repr(k)) in other_syms for k in only):
+            return False
+    C = core.CTX
+    A, B = list(a._nonempty_norm()), list(b._nonempty_norm())
+    conds = []
+    guard = 0
+    while A and B:
+        guard += 1
+        if guard > 200:
+            raise Unsupported("rope equality: too many segments")
+        x, y = A[0], B[0]
+        xp, yp = isinstance(x, Piece), isinstance(y, Piece)
+        if not xp and not yp:
+            conds.append(toint(x) == toint(y))
+            A.pop(0)
+            B.pop(0)
+            continue
+        if xp and yp:
+            # cut the longer one
+            if C.branch(x.ln <= y.ln):
+                n = x.ln
+                A.pop(0)
+                if C.branch(y.ln <= n):
+                    B.pop(0)
+                else:
+                    B[0] = y.sub(n, S(y.ln - n))
+                    y = y.sub(0, n)
+            else:
+                n = y.ln
+                B.pop(0)
+                A[0] = x.sub(n, S(x.ln - n))
+                x = x.sub(0, n)
+            if isinstance(x, Fill) and isinstance(y, Fill):
+                conds.append(toint(x.value) == toint(y.value))
+            elif isinstance(x, Fill) or isinstance(y, Fill):
+                raise Unsupported("rope equality: fill vs abstract piece")
+            elif x.base == y.base:
+                if _true(x.off == y.off):
+                    pass
+                elif isinstance(x.base, Term):
+                    if not C.branch(x.off == y.off):
+                        return False          # different windows of an ideal primitive's output
+                else:
+                    raise Unsupported("rope equality: abstract input compared with itself at a different offset")
+            else:
+                if isinstance(x.base, Term) or isinstance(y.base, Term):
+                    return False
+                raise Unsupported("rope equality between different abstract inputs")
+            continue
+        # one piece, one element: take one element off the piece
+        if xp:
+            e = x.value if isinstance(x, Fill) else byte_of(x.base, x.off)
+            conds.append(toint(e) == toint(y))
+            B.pop(0)
+            if C.branch(x.ln <= 1):
+                A.pop(0)
+            else:
+                A[0] = x.sub(1, S(x.ln - 1))
+        else:
+            e = y.value if isinstance(y, Fill) else byte_of(y.base, y.off)
+            conds.append(toint(e) == toint(x))
+            A.pop(0)
+            if C.branch(y.ln <= 1):
+                B.pop(0)
+            else:
+                B[0] = y.sub(1, S(y.ln - 1))
+    if A or B:
+        return False
+    return S(z3.And(conds)) if conds else True
+
+
+def _unsup(msg):
+    raise Unsupported("rope equality: " + msg)
 
 
 _ARRAYS = {}
